@@ -129,14 +129,17 @@ class PositionHlCommander:
         :return:
         """
         if self._is_flying:
-            landing_height = self._landing_height(landing_height)
-            duration_s = (self._z - landing_height) / self._velocity(velocity)
-            self._hl_commander.land(landing_height, duration_s)
-            time.sleep(duration_s)
-            self._z = landing_height
-
-            self._hl_commander.stop()
-            self._is_flying = False
+            try:
+                landing_height = self._landing_height(landing_height)
+                # The landing height may be above the current position: the duration is a distance over a velocity
+                duration_s = abs(self._z - landing_height) / self._velocity(velocity)
+                self._hl_commander.land(landing_height, duration_s)
+                time.sleep(duration_s)
+                self._z = landing_height
+            finally:
+                # Always stop, also when the landing could not be commanded
+                self._hl_commander.stop()
+                self._is_flying = False
 
     def __enter__(self):
         self.take_off()
